@@ -91,7 +91,7 @@ def strategy(tier: str):
         (2, send),
         (1, st.builds(lambda n, v: ["flag", n, "reboot", v], st.sampled_from((1, 2, 3)), st.booleans())),
         (1, st.builds(lambda v: ["metric", v], st.booleans())),
-        (1, st.sampled_from((["read_error", "read"], ["read_error", "failed"], ["save"], ["reload"]))),
+        (1, st.sampled_from((["read_error", "read"], ["read_error", "failed"], ["save"], ["reload"], ["session"], ["session"]))),
         (1, st.sampled_from((1, 9, 11, 61, 901, 86400)).map(lambda t: ["sleep", t])),  # nothing arrives for a while: nothing is written either
     )
     return st.fixed_dictionaries(
@@ -104,6 +104,7 @@ def strategy(tier: str):
             "ops": st.lists(op, min_size=5, max_size=20),
             "listen_mode": st.sampled_from(("fresh", "persistent")),
             "debug_log": st.sampled_from((False, False, True)),
+            "persistence_file": st.sampled_from((None, None, None, "unwritable")),  # a configured registry file on a full / read-only disk
         }
     )
 
@@ -140,6 +141,15 @@ def enumerate_cases(tier: str):
         ops += [["sleep", 3600], ["sleep", 86400]]
         for mode in ("fresh", "persistent"):
             yield {"version": version, "metric": True, "tz": "UTC0", "epoch": 1_700_000_000, "registry": idle_reg, "ops": ops, "listen_mode": mode}
+    # a second session on the same gateway object (reconnect): every reaction as in the first
+    react = ["0;255;3;0;14;Gateway startup complete.\n", "255;255;3;0;3;\n", "1;255;3;0;6;0\n", "1;255;3;0;1;\n", "1;0;2;0;0;\n", "1;0;1;0;0;5\n", "9;9;1;0;0;1\n", "1;255;3;0;22;7\n"]
+    for version in (None, "1.5", "2.0", "2.2"):
+        ops = [["session"]] + [["rx", l] for l in react] + [["session"]] + [["rx", l] for l in react] + [["session"], ["session"]] + [["rx", l] for l in react]
+        for mode in ("fresh", "persistent"):
+            yield {"version": version, "metric": True, "tz": "UTC0", "epoch": 1_700_000_000, "registry": idle_reg, "ops": ops, "listen_mode": mode}
+    # the registry file cannot be written (full or read-only disk): reactions do not depend on it
+    for version in (None, "1.5", "2.2"):
+        yield {"version": version, "metric": False, "tz": "UTC0", "epoch": 1_700_000_000, "registry": idle_reg, "ops": [["rx", l] for l in react] * 2, "listen_mode": "persistent", "persistence_file": "unwritable"}
     # every internal type around the per-version tables while the version is unknown: each decoded message is followed by the query
     for mode in ("fresh", "persistent"):
         ops = [["rx", f"{n};255;3;{a};{t};1\n"] for t in range(-1, 40) if t != 2 for n, a in ((1, 0), (9, 1))]
